@@ -63,7 +63,10 @@ func respellDirective(g *G, d string) string {
 	return name + "=" + arg
 }
 
-var extensionDirectives = []string{"ext", "foo=bar", `x-y="q,w"`, "community=\"UCI\"", "no-transform-ish", "s-maxage=0"}
+var extensionDirectives = []string{"ext", "foo=bar", `x-y="q,w"`, "community=\"UCI\"", "no-transform-ish", "s-maxage=0",
+	// quoted-strings with quoted-pairs: an escaped backslash before the closing quote, an escaped
+	// quote followed by a comma and directive-like text inside the quotes
+	`ext="C:\\"`, `e2="a\"b, no-store"`, `e3="\\\\"`, `e4="\""`, `e5="x\\\"y, max-age=0"`, `e6="no-cache, no-store"`}
 
 // respellCC turns the comma-joined canonical value(s) into one or more field lines
 func respellCC(g *G, values []string) []string {
@@ -513,6 +516,89 @@ func (g *G) genInvalRace(id string) *History {
 			}
 		}
 		at += 10 * sec
+	}
+	return h
+}
+
+// genSIE: stale-if-error around every edge — the directive on the stored response, the request,
+// both or neither; staleness just inside / on / outside the window when the failing exchange STARTS
+// and when it ENDS (slow failing origins); transport errors and every failure status; requests that
+// also carry max-age=0 / no-cache; stored responses that must be validated.
+func (g *G) genSIE(id string) *History {
+	h := &History{ID: id, Prop: g.prop, Class: "sie", Backend: pick(g, "mem", "mem", "fs"), Logger: "discard"}
+	url := "http://a.test/e"
+	L := pick(g, int64(5), 10, 60)
+	N := pick(g, int64(5), 20, 100)
+	cc := "max-age=" + strconv.FormatInt(L, 10)
+	storedSIE := g.chance(0.6)
+	if storedSIE {
+		cc += ", stale-if-error=" + strconv.FormatInt(N, 10)
+	}
+	if g.chance(0.2) {
+		cc += pick(g, ", must-revalidate", ", no-cache", `, no-cache="X-Secret"`, ", stale-while-revalidate=3")
+	}
+	hd := Hdr{{"Date", dateAt(0, 0)}, {"Cache-Control", cc}, {"X-Secret", "s"}}
+	if g.chance(0.6) {
+		hd = append(hd, [2]string{"Etag", `"e"`})
+	}
+	if g.chance(0.2) {
+		hd = append(hd, [2]string{"Age", pick(g, "1", "3")})
+	}
+	h.Ops = append(h.Ops, Op{Op: "req", AtNs: 0, Method: "GET", URL: url, Replies: []Reply{{Status: 200, Hdr: hd, Body: "e0", BodyFail: -1}}})
+	at := int64(0)
+	rounds := 1 + g.r.Intn(3)
+	for i := 0; i < rounds; i++ {
+		delay := pick(g, int64(0), 0, sec, 2*sec, 3*sec, 10*sec)
+		// staleness at the START of the exchange relative to the window edge
+		off := pick(g, int64(-12), -4, -3, -2, -1, 0, 1, 2, 50)
+		t := (L + N + off) * sec
+		if g.chance(0.2) {
+			t += pick(g, int64(1), -1)
+		}
+		if t <= at+5*sec {
+			t = at + 5*sec
+		}
+		at = t
+		var rcc []string
+		if g.chance(0.5) {
+			rcc = append(rcc, "stale-if-error="+pick(g, strconv.FormatInt(N, 10), "0", "1", "1000", "junk"))
+		}
+		switch g.r.Intn(8) {
+		case 0:
+			rcc = append(rcc, "max-age=0")
+		case 1:
+			rcc = append(rcc, "no-cache")
+		case 2:
+			rcc = append(rcc, "max-age="+strconv.FormatInt(L+N, 10))
+		case 3:
+			rcc = append(rcc, "max-stale=1")
+		}
+		var rh Hdr
+		if len(rcc) > 0 {
+			rh = Hdr{{"Cache-Control", ccJoin(rcc)}}
+		}
+		var rp Reply
+		switch g.r.Intn(6) {
+		case 0, 1:
+			rp = Reply{Err: true, BodyFail: -1, DelayNs: delay}
+		case 2, 3:
+			eh := Hdr{{"Date", dateAt(at+delay, 0)}}
+			if g.chance(0.3) {
+				eh = append(eh, [2]string{"Cache-Control", "stale-if-error=1000"})
+			}
+			rp = Reply{Status: pick(g, 500, 502, 503, 504), Hdr: eh, Body: "err", BodyFail: -1, DelayNs: delay}
+		case 4:
+			rp = Reply{Status: pick(g, 501, 505, 404, 400, 429, 599), Hdr: Hdr{{"Date", dateAt(at+delay, 0)}}, Body: "err", BodyFail: -1, DelayNs: delay}
+		default:
+			rp = Reply{Status: 304, Hdr: Hdr{{"Date", dateAt(at+delay, 0)}}, BodyFail: -1, DelayNs: delay}
+		}
+		bg := rp
+		bg.DelayNs = sec / 2
+		h.Ops = append(h.Ops, Op{Op: "req", AtNs: at, Method: "GET", URL: url, Hdr: rh, Replies: []Reply{rp, bg}})
+		at += delay
+		if rp.Status == 304 {
+			break // freshened: the window moves; one history, one window
+		}
 	}
 	return h
 }
